@@ -288,7 +288,7 @@ func ruleFailClosedAs(rule string) func(*Ctx) {
 					arm := t.armFor(k)
 					construct := "arm " + k.Name()
 					if arm == nil {
-						c.bad(rule, f, construct, t.Stmt.Pos(), "no arm for signature format %s", k.Name())
+						c.bad(rule, f, construct, t.At, "no arm for signature format %s", k.Name())
 						continue
 					}
 					has := false
